@@ -18,39 +18,38 @@ def translate():
 
 
 def validate(run, tier):
-    R = 24 if tier == "quick" else 96
-    cfgs = [dict(clustering=False), dict(clustering=True, sample="rwm", resample="syst")]
+    """Cells: (configuration, particle count, number of seeded runs). The N=32 cells are a coarse sanity check (finite-particle
+    allowance 0.10); the N=128 cells have 192 runs so that a persistent bias of a few per cent in Z is visible
+    (4 standard errors + 0.03)."""
+    base = [dict(clustering=False), dict(clustering=True, sample="rwm", resample="syst")]
+    cells = [(c, 32, 24) for c in base] + [(c, 128, 192) for c in base]
     if tier != "quick":
-        cfgs += [dict(clustering=True), dict(clustering=False, sample="rwm"), dict(clustering=True, cluster_every=2)]
-    for cfg in cfgs:
-        errs = {}
-        for npart in (32, 128):
-            res = ens.run_ensemble("interior", cfg, R, npart, 7000)
-            bad = [r for r in res if not r["ok"]]
-            what = dict(target="interior", cfg=cfg, runs=R, n_particles=npart, seeds="7000..")
-            if bad:
-                run.fail("ensemble-run-raises", f"{len(bad)} of {R} runs raised: {bad[0]['err']}", **what)
-                continue
-            run.case(key=("logz", str(cfg), npart), nontrivial=True)
-            lz = [r["logz"] for r in res]
-            e, se = ens.stats(lz, ens.TARGETS["interior"]["logz"])
-            errs[npart] = (e, se)
-            run.extra.setdefault("ensemble", []).append(dict(cfg=str(cfg), n_particles=npart, logz_err=round(e, 4), se=round(se, 4)))
-            allowance = 0.15 if npart == 32 else 0.08
-            if abs(e) > 6 * se + allowance:
-                run.fail("evidence-biased", f"over {R} seeds with {npart} particles: mean log-evidence error {e:+.3f} (se {se:.3f})", **what)
-            # independence across seeds: distinct seeds must not replay the same run
-            if len({round(v, 12) for v in lz}) < len(lz):
-                run.fail("seeded-runs-replay", "two differently seeded runs returned the same evidence to 12 digits", **what)
-        if 32 in errs and 128 in errs:
-            # the error must not persist when the particle count is increased
-            e32, s32 = errs[32]
-            e128, s128 = errs[128]
-            if abs(e128) > 6 * s128 + 0.08 and abs(e128) > 0.7 * abs(e32):
-                run.fail("evidence-bias-persists", f"log-evidence error {e32:+.3f} at N=32 and {e128:+.3f} at N=128", cfg=cfg)
+        more = [dict(clustering=True), dict(clustering=False, sample="rwm"), dict(clustering=True, cluster_every=2),
+                dict(clustering=False, sample="rwm", resample="mult", volume_variation=0.5)]
+        cells += [(c, 32, 96) for c in more] + [(c, 128, 192) for c in more] + [(c, 512, 96) for c in base]
+    errs = {}
+    for cfg, npart, R in cells:
+        res = ens.run_ensemble("interior", cfg, R, npart, 7000)
+        bad = [r for r in res if not r["ok"]]
+        what = dict(target="interior", cfg=cfg, runs=R, n_particles=npart, seeds="7000..")
+        if bad:
+            run.fail("ensemble-run-raises", f"{len(bad)} of {R} runs raised: {bad[0]['err']}", **what)
+            continue
+        run.case(key=("logz", str(cfg), npart), nontrivial=True)
+        lz = [r["logz"] for r in res]
+        e, se = ens.stats(lz, ens.TARGETS["interior"]["logz"])
+        errs[(str(cfg), npart)] = (e, se)
+        run.extra.setdefault("ensemble", []).append(dict(cfg=str(cfg), n_particles=npart, runs=R, logz_err=round(e, 4), se=round(se, 4)))
+        allowance = 0.10 if npart == 32 else 0.03
+        if abs(e) > 4 * se + allowance:
+            run.fail("evidence-biased", f"over {R} seeds with {npart} particles: mean log-evidence error {e:+.3f} (se {se:.3f})", **what)
+        # independence across seeds: distinct seeds must not replay the same run
+        if len({round(v, 12) for v in lz}) < len(lz):
+            run.fail("seeded-runs-replay", "two differently seeded runs returned the same evidence to 12 digits", **what)
+    R = 24 if tier == "quick" else 96
     # half-supported likelihood: the warm-up correction must enter the evidence once (end-to-end view of C11)
     errs = {}
-    for npart in (32, 128):
+    for npart, R in ((32, R), (128, 4 * R)):
         cfg = dict(clustering=False)
         res = ens.run_ensemble("half", cfg, R, npart, 7300)
         what = dict(target="half-supported Gaussian (likelihood zero for x0 < 0)", cfg=cfg, runs=R, n_particles=npart, seeds="7300..")
@@ -62,7 +61,7 @@ def validate(run, tier):
         e, se = ens.stats([r["logz"] for r in res], ens.TARGETS["half"]["logz"])
         errs[npart] = e
         run.extra["ensemble"].append(dict(cfg="half-supported", n_particles=npart, logz_err=round(e, 4), se=round(se, 4)))
-        if abs(e) > 6 * se + (0.15 if npart == 32 else 0.08):
+        if abs(e) > 4 * se + (0.15 if npart == 32 else 0.04):
             run.fail("evidence-biased", f"half-supported target, {R} seeds, {npart} particles: mean log-evidence error {e:+.3f} (se {se:.3f})", **what)
     independence_probe(run)
     run.sample(dict(kind="ensemble", first=run.extra["ensemble"][0]))
@@ -106,9 +105,10 @@ def independence_probe(run):
 def main(tier, seed):
     run = Run(PID, tier, seed)
     run.rule = ("proof obligations (identities and seeding-trace facts tied to the generated code) + validation: seeded ensembles "
-                "(24 quick / 96 thorough runs, seeds 7000..) on a Gaussian with analytically known evidence at N=32 and N=128 for "
-                "tpCN/mult/no clustering and RWM/syst/clustering (more cells thorough); mean log-evidence error within 6 "
-                "standard errors plus a finite-particle allowance (0.15 / 0.08), not persisting from N=32 to N=128, and distinct "
+                "(seeds 7000..) on a Gaussian with analytically known evidence: 24 runs at N=32 and 192 runs at N=128 for "
+                "tpCN/mult/no clustering and RWM/syst/clustering (more cells, N=512 thorough); mean log-evidence error within 4 "
+                "standard errors plus a finite-particle allowance (0.10 at N=32, 0.03 at N=128); a half-supported target "
+                "(warm-up correction); the global stream state after each training step differs between seeds; distinct "
                 "seeds giving distinct results. The ensemble is a validation; it is not a proof.")
     run.assumptions = [
         "PARTIAL: the 1/sqrt(R) rate and the O(1/N) bias of plug-in normalisers are not carried",
@@ -117,7 +117,7 @@ def main(tier, seed):
     try:
         translate()
         run.obligation("translate:all generated pieces used by C02", True)
-    except TranslateError as e:
+    except Exception as e:  # fail closed: anything the translator cannot digest
         run.obligation("translate:all generated pieces used by C02", False, str(e))
     run.prove("Props/C02.v", link_rels=["Link/MIS.v", "Link/Posterior.v", "Link/Seeding.v"], allowed_axioms=STDLIB_AXIOMS_REALS)
     run.prove("Props/C02W.v", link_rels=["Link/Warmup.v"])
